@@ -133,17 +133,20 @@ func addLeaf(t Tree, r *Route, s *Segment, h Handler) (Leaf, error) {
 
 	if leaf.getSegment().Optional {
 		parent := leaf.getParent()
+		var short Leaf
 		if parent.getParent() != nil {
-			_, err = addLeaf(parent.getParent(), r, parent.getSegment(), h)
+			short, err = addLeaf(parent.getParent(), r, parent.getSegment(), h)
 			if err != nil {
 				return nil, errors.Wrap(err, "add optional leaf to grandparent")
 			}
 		} else {
-			_, err = addLeaf(parent, r, parent.getSegment(), h)
+			short, err = addLeaf(parent, r, parent.getSegment(), h)
 			if err != nil {
 				return nil, errors.Wrap(err, "add optional leaf to parent")
 			}
 		}
+		// Header matches of the route apply to both forms.
+		leaf.setOptionalLeaf(short)
 	}
 
 	// Determine leaf position by the priority of match styles.
